@@ -266,11 +266,15 @@ class FortranAST:
                 if include_ast.none_scope:
                     if include_ast.inc_scope is None:
                         include_ast.inc_scope = include_ast.none_scope
+                    # A file that includes itself, directly or through other
+                    # files: its entities are already in this scope
+                    if include_ast.inc_scope is parent_scope:
+                        continue
                     # Remove old objects
                     for obj in added_entities:
                         parent_scope.children.remove(obj)
                     added_entities = []
-                    for child in include_ast.inc_scope.children:
+                    for child in list(include_ast.inc_scope.children):
                         added_entities.append(child)
                         if parent_scope is not None:
                             parent_scope.add_child(child)
